@@ -204,8 +204,31 @@ def check_recovery(x, p, z, fname, tag):
     return bad, {'kappa': kap}
 
 
+def check_reuse(x1, x2, p, fname):
+    """the fit is a function of the sample values: a buffer overwritten in place and fitted again gives the fit of its new content"""
+    import spectrum
+    from spectrum.covar import arcovar_marple
+    from spectrum.modcovar import modcovar_marple
+    f = {'arcovar': spectrum.arcovar, 'modcovar': spectrum.modcovar, 'arcovar_marple': arcovar_marple, 'modcovar_marple': modcovar_marple,
+         'corrmtx_covariance': lambda b, q: (spectrum.corrmtx(b, q, 'covariance'),), 'corrmtx_modified': lambda b, q: (spectrum.corrmtx(b, q, 'modified'),)}[fname]
+    buf = np.array(x1, copy=True)
+    f(buf, p)
+    buf[:] = x2
+    got = f(buf, p); want = f(np.array(x2, copy=True), p)
+    for g, w in zip(got, want):
+        g = np.atleast_1d(np.asarray(g, dtype=complex)); w = np.atleast_1d(np.asarray(w, dtype=complex))
+        if g.shape != w.shape or (w.size and np.max(np.abs(g - w)) > 1e-10 * max(1.0, np.max(np.abs(w)))):
+            return [('stateless/' + fname, '%s on a buffer overwritten in place differs from the fit of the same samples in a fresh array' % fname)]
+    return []
+
+
 def replay(rep):
     r = rep['replay']; x = vlib.unhexv(r['x'])
+    if r.get('kind') == 'reuse':
+        x2 = vlib.unhexv(r['x2'])
+        if r.get('datatype') == 'real':
+            x = np.real(x); x2 = np.real(x2)
+        return not check_reuse(x, x2, r['order'], r['function'])
     if r.get('kind') == 'recovery':
         bad, _ = check_recovery(x, r['order'], vlib.unhexv(r['z']), r['function'], 'replay')
     elif r.get('kind') == 'corrmtx':
@@ -448,3 +471,18 @@ def run(ctx):
                 ctx.count('recovery/cond-1e%d' % int(np.floor(np.log10(max(info['kappa'], 1.0)))))
             for key, what in bad:
                 ctx.violation(key, what, {'function': fname, 'kind': 'recovery', 'x': vlib.hexv(x), 'order': p, 'z': vlib.hexv(z)})
+
+    # ---------------- statelessness: the same buffer object, overwritten in place, fitted again
+    for it in range(ctx.q(24, 240)):
+        fname = ['arcovar', 'modcovar', 'arcovar_marple', 'modcovar_marple', 'corrmtx_covariance', 'corrmtx_modified'][it % 6]
+        cplx = bool(rng.integers(0, 2)); N = int(rng.integers(12, 65)); p = int(rng.integers(1, min(N // 3, 8) + 1))
+        x1 = rng.standard_normal(N) + (1j * rng.standard_normal(N) if cplx else 0)
+        x2 = rng.standard_normal(N) + (1j * rng.standard_normal(N) if cplx else 0)
+        tag = 'complex' if cplx else 'real'
+        ctx.count('search/reuse/%s/%s' % (fname, tag)); ctx.case(('reuse', fname, x1.tobytes(), x2.tobytes(), p), nontrivial=True)
+        try:
+            bad = check_reuse(x1, x2, p, fname)
+        except Exception as e:
+            bad = [('stateless/' + fname, 'raised %r' % (e,))]
+        for key, what in bad:
+            ctx.violation(key, what, {'kind': 'reuse', 'function': fname, 'x': vlib.hexv(np.asarray(x1, dtype=complex)), 'x2': vlib.hexv(np.asarray(x2, dtype=complex)), 'order': p, 'datatype': tag})
